@@ -48,7 +48,7 @@ def run(rep, tier, seed, model_ok):
                        "an interrupted check), leave every source file original or complete, and leave a lock above every "
                        "ID written; signals during start-up (before the handlers exist) may kill the process but then "
                        "nothing may have changed. Non-trivial = signal delivered from discovery on")
-    faults.campaign(rep, tier, rng, ("sig",), judge, model_ok, modes=("edit", "check"))
+    faults.campaign(rep, tier, rng, ("sig", "sig2"), judge, model_ok, modes=("edit", "check"))
     rep.assumptions += ["signal delivery and async-signal-safety are signal-hook's and the kernel's; the signal is "
                         "raised synchronously at operation boundaries, not at arbitrary instructions"]
 
